@@ -723,6 +723,17 @@ def gen_pause(rng):
     return sc
 
 
+def gen_date0(rng):
+    """customers arriving at date exactly 0 at slotted and processor-sharing nodes (first inter-arrival sample 0)"""
+    sc = rng.choice([gen_slot, gen_ps, gen_slotpre])(rng)
+    for n in range(sc["N"]):
+        for k in range(sc["K"]):
+            if sc["arrS"][n][k]:
+                sc["arrS"][n][k] = [0, 1, 2, 3]
+    sc["script"] = {"ia/1/1": [0, 0, 1, 2, 1, 0, 2, 1, 1, 2, 1, 1, 2, 1, 3, 1, 2, 2, 1, 1] * 3}
+    return sc
+
+
 def gen_stopcount(rng):
     base = rng.choice([gen_core1, gen_tandem, gen_prio, gen_renege, gen_cls])
     sc = base(rng)
@@ -761,6 +772,7 @@ def gen_stopcount(rng):
 FAMILIES = {
     "stopcount": gen_stopcount,
     "trk": gen_trk,
+    "date0": gen_date0,
     "pause": gen_pause,
     "infblock": gen_infblock,
     "ppsched": gen_ppsched,
